@@ -22,9 +22,16 @@ func (k Keeper) InitGenesis(ctx sdk.Ctx, data types.GenesisState) []abci.Validat
 		k.Logger(ctx).Error(fmt.Errorf("%s module account has not been set", types.DAOAccountName).Error())
 		os.Exit(1)
 	}
-	err := k.AuthKeeper.MintCoins(ctx, types.DAOAccountName, sdk.NewCoins(sdk.NewCoin(sdk.DefaultStakeDenom, data.DAOTokens)))
-	if err != nil {
-		k.Logger(ctx).Error(fmt.Errorf("unable to set dao tokens: %s", err.Error()).Error())
+	// mint the dao tokens if not provided on genesis: a dao account that came with the
+	// genesis accounts (an exported state) already holds them and the supply already counts them
+	if dao.GetCoins().IsZero() {
+		err := k.AuthKeeper.MintCoins(ctx, types.DAOAccountName, sdk.NewCoins(sdk.NewCoin(sdk.DefaultStakeDenom, data.DAOTokens)))
+		if err != nil {
+			k.Logger(ctx).Error(fmt.Errorf("unable to set dao tokens: %s", err.Error()).Error())
+		}
+	} else if !dao.GetCoins().AmountOf(sdk.DefaultStakeDenom).Equal(data.DAOTokens) {
+		k.Logger(ctx).Error(fmt.Sprintf("%s module account balance does not equal the dao tokens in the genesis state", types.DAOAccountName))
+		os.Exit(1)
 	}
 	return []abci.ValidatorUpdate{}
 }
